@@ -48,11 +48,16 @@ type step struct {
 	Op   string   `json:"op,omitempty"` // sub | cancel | unsub | closewatch | ""
 	Sid  int      `json:"sid,omitempty"`
 	Mode string   `json:"mode,omitempty"` // reader | slow
+	N    int      `json:"n,omitempty"`    // sub: subscribe N subscribers with ids Sid, Sid+1, … (default 1)
+	// global: stay this long in the step and count the statuses every reading subscriber receives
+	// meanwhile — every turn of the loop (one per push interval at least) must reach every live subscriber
+	Hold int `json:"hold_ms,omitempty"`
 }
 
 type obs struct {
-	Readers map[string][]string        `json:"readers"` // sid -> last received addresses (sorted); absent = nothing yet
-	Unsubs  map[string]map[string]bool `json:"unsubs"`  // sid -> {done, closed}
+	Readers map[string][]string        `json:"readers"`          // sid -> last received addresses (sorted); absent = nothing yet
+	Unsubs  map[string]map[string]bool `json:"unsubs"`           // sid -> {done, closed}
+	Pushes  map[string]int             `json:"pushes,omitempty"` // hold steps: sid -> statuses received during the step
 }
 
 type kase struct {
@@ -74,6 +79,8 @@ type subscriber struct {
 	closed  bool
 	unsub   bool
 	done    bool
+	count   int // statuses received
+	mark    int // count at the beginning of the current step
 	stopped bool
 }
 
@@ -90,6 +97,7 @@ func (s *subscriber) read() {
 			a := append([]string{}, st.Addresses...)
 			sort.Strings(a)
 			s.last, s.has = a, true
+			s.count++
 			s.mu.Unlock()
 		case <-s.stop:
 			return
@@ -196,6 +204,7 @@ type instance struct {
 	relay *relayStore
 	subs  map[int]*subscriber
 	dead  bool // the watch has been closed
+	hold  int  // hold_ms of the current step
 }
 
 func (in *instance) apply(ctx context.Context, st step) {
@@ -210,12 +219,18 @@ func (in *instance) apply(ctx context.Context, st step) {
 		}
 		in.relay.mu.Unlock()
 	case "sub":
-		sctx, cancel := context.WithCancel(ctx)
-		id, ch := in.h.Subscribe(sctx)
-		s := &subscriber{id: id, ch: ch, cancel: cancel, mode: st.Mode, stop: make(chan struct{})}
-		in.subs[st.Sid] = s
-		if st.Mode == "reader" {
-			go s.read()
+		n := st.N
+		if n < 1 {
+			n = 1
+		}
+		for j := 0; j < n; j++ {
+			sctx, cancel := context.WithCancel(ctx)
+			id, ch := in.h.Subscribe(sctx)
+			s := &subscriber{id: id, ch: ch, cancel: cancel, mode: st.Mode, stop: make(chan struct{})}
+			in.subs[st.Sid+j] = s
+			if st.Mode == "reader" {
+				go s.read()
+			}
 		}
 	case "cancel":
 		if s := in.subs[st.Sid]; s != nil {
@@ -272,6 +287,9 @@ func (in *instance) satisfied(reg []string) bool {
 			if !ok || !sameStrings(last, reg) {
 				return false
 			}
+			if in.hold > 0 && o.Pushes[fmt.Sprint(sid)] < minPushes(in.hold) {
+				return false
+			}
 		}
 	}
 	for _, u := range o.Unsubs {
@@ -281,6 +299,9 @@ func (in *instance) satisfied(reg []string) bool {
 	}
 	return true
 }
+
+// minPushes: during hold_ms at least hold/interval ticks fire; one may be lost at the window's edges
+func minPushes(holdMs int) int { return holdMs/1000 - 1 }
 
 func sameStrings(a, b []string) bool {
 	if len(a) != len(b) {
@@ -296,9 +317,15 @@ func sameStrings(a, b []string) bool {
 
 func (in *instance) observe() obs {
 	o := obs{Readers: map[string][]string{}, Unsubs: map[string]map[string]bool{}}
+	if in.hold > 0 {
+		o.Pushes = map[string]int{}
+	}
 	for sid, s := range in.subs {
 		s.mu.Lock()
 		key := fmt.Sprint(sid)
+		if in.hold > 0 && s.mode == "reader" && !s.stopped && !s.unsub {
+			o.Pushes[key] = s.count - s.mark
+		}
 		if s.mode == "reader" && !s.stopped && !s.unsub && s.has {
 			o.Readers[key] = s.last
 		}
@@ -410,7 +437,14 @@ func runBatch(t *testing.T, m *etcdv3.Mercury, cli *clientv3.Client, hook *hookK
 		}
 		for i, k := range ks {
 			ins[i].apply(ctx, k.Steps[si])
+			ins[i].hold = g.Hold
+			for _, sb := range ins[i].subs {
+				sb.mu.Lock()
+				sb.mark = sb.count
+				sb.mu.Unlock()
+			}
 		}
+		hold := time.Duration(g.Hold) * time.Millisecond
 		// No fixed sleep and no judgement from one sample: poll until every instance that is expected to
 		// converge has done so (every reading subscriber's last status = the registered set, every
 		// Unsubscribe returned and its channel closed) or a deadline of several push intervals passes.
@@ -432,6 +466,12 @@ func runBatch(t *testing.T, m *etcdv3.Mercury, cli *clientv3.Client, hook *hookK
 				} else if !ins[i].satisfied(want) {
 					all = false
 				}
+			}
+			if hold > 0 {
+				if el >= hold {
+					break
+				}
+				continue
 			}
 			if el >= deadline || (all && el >= 300*time.Millisecond && (!unjudged || el >= wait)) {
 				break
@@ -648,6 +688,26 @@ func corpusEmptyBatch() []*kase {
 	}
 }
 
+// fixed batch: while a cancelled (not yet unsubscribed) subscriber sits in the map, every turn of the loop
+// must still reach every live subscriber: five readers are held for 4.2 s and each must receive at least
+// 3 statuses (one per push interval).
+func corpusRepushBatch() []*kase {
+	a, b := addrs[0], addrs[1]
+	tl := []step{{Reg: a}, {Reg: b}, {Hold: 4200}, {}}
+	mk := func(id string, ops ...step) *kase {
+		st := append([]step{}, tl...)
+		for i := range ops {
+			st[i].Op, st[i].Sid, st[i].Mode, st[i].N = ops[i].Op, ops[i].Sid, ops[i].Mode, ops[i].N
+		}
+		return &kase{ID: id, Steps: st}
+	}
+	return []*kase{
+		mk("c-repush-with-cancelled", step{Op: "sub", Sid: 1, Mode: "reader", N: 3}, step{Op: "sub", Sid: 4, Mode: "reader", N: 3}, step{Op: "cancel", Sid: 2}, step{Op: "unsub", Sid: 2}),
+		mk("c-repush-two-cancelled", step{Op: "sub", Sid: 1, Mode: "reader", N: 6}, step{Op: "cancel", Sid: 3}, step{Op: "cancel", Sid: 5}, step{Op: "unsub", Sid: 3}),
+		mk("c-repush-plain", step{Op: "sub", Sid: 1, Mode: "reader", N: 4}, step{}, step{}, step{Op: "unsub", Sid: 1}),
+	}
+}
+
 // second fixed batch: transactions whose last write is a no-op after a changing write
 func corpusTxnBatch() []*kase {
 	a, b, c := txAddrs[0], txAddrs[1], txAddrs[2]
@@ -767,6 +827,7 @@ func TestGen(t *testing.T) {
 	emit(corpusTxnBatch())
 	emit(corpusEmptyBatch())
 	emit(corpusStartRaceBatch())
+	emit(corpusRepushBatch())
 	batch := hx.EnvInt("VERIF_HELIUM_BATCH", 24)
 	for bi := 0; out.N < n; bi++ {
 		nsteps := r.Range(4, 6)
